@@ -158,11 +158,29 @@ theorem DiskOK.allViews {cfg : Cfg} {d : Disk} {must issued : List Grp} (h : Dis
   cases hv'
   exact hok
 
+/-- the next file number moves on: every journal lies strictly below it -/
+theorem nums_bump {d : Disk} {n n' : Nat} (h : ∀ p ∈ d.journals, p.1 < n ∨ p.1 = n ∧ p.2.all = []) (hn : n < n') :
+    ∀ p ∈ d.journals, p.1 < n' ∨ p.1 = n' ∧ p.2.all = [] := by
+  intro p hp
+  rcases h p hp with x | x
+  · exact Or.inl (by omega)
+  · exact Or.inl (by omega)
+
+theorem nums_le {d : Disk} {n n' : Nat} (h : ∀ p ∈ d.journals, p.1 < n ∨ p.1 = n ∧ p.2.all = []) (hn : n ≤ n') :
+    ∀ p ∈ d.journals, p.1 < n' ∨ p.1 = n' ∧ p.2.all = [] := by
+  intro p hp
+  rcases h p hp with x | x
+  · exact Or.inl (by omega)
+  · rcases Nat.lt_or_ge n n' with y | y
+    · exact Or.inl (by omega)
+    · exact Or.inr ⟨by omega, x.2⟩
+
 /-- more groups must survive, provided every admissible view already covers the new ones -/
 theorem DiskOK.mono_cover {cfg : Cfg} {d : Disk} {must must' issued issued' : List Grp}
     (h : DiskOK cfg d must issued)
     (hm : ∀ g ∈ must', g ∈ must ∨
-      AllViews cfg d fun v => g ∈ liveGrps d v ∨ ∃ p ∈ relJournals d v.jn, g ∈ p.2.synced)
+      AllViews cfg d fun v => (g ∈ liveGrps d v ∨ ∃ p ∈ relJournals d v.jn, g ∈ p.2.synced) ∧
+        ∀ p ∈ relJournals d v.jn, g ∈ p.2.all → v.sq ≤ g.seq)
     (hi : ∀ g ∈ issued, g ∈ issued') : DiskOK cfg d must' issued' := by
   obtain ⟨a, b, c, hr⟩ := h
   refine ⟨a, b, c, ?_⟩
@@ -180,10 +198,15 @@ theorem DiskOK.mono_cover {cfg : Cfg} {d : Disk} {must must' issued issued' : Li
   · obtain ⟨x, y, z⟩ := hok.tseq g hg
     exact ⟨x, hi g y, z⟩
   · obtain ⟨x, y⟩ := hok.jseq p hp g hg
-    exact ⟨x, hi g y⟩
+    refine ⟨?_, hi g y⟩
+    by_cases hgm : g ∈ must'
+    · rcases hm g hgm with h1 | h1
+      · exact x.imp id (fun u _ => u h1)
+      · exact Or.inl ((h1 mf hmf k hk v hv).2 p hp hg)
+    · exact Or.inr hgm
   · rcases hm g hg with h1 | h1
     · exact hok.cover g h1
-    · exact h1 mf hmf k hk v hv
+    · exact (h1 mf hmf k hk v hv).1
 
 /-- rebuilding `ViewBounds` when the manifest has not changed -/
 theorem ViewBounds.of_same {cfg : Cfg} {s s' : St} {d d' : Disk} (h : ViewBounds cfg s d)
